@@ -811,6 +811,17 @@ func (bal *Balancer) balanceBlock(blkid arvados.SizedDigest, blk *BlockState) ba
 			changes = append(changes, fmt.Sprintf("%s:%d/%s=%s,%d", srv.ServiceHost, srv.ServicePort, slot.mnt.UUID, changeName[change], mtime))
 		}
 	}
+	if len(blk.Replicas) == 0 && !lost {
+		// A referenced block with no replica anywhere is lost,
+		// even if there is no writable mount (or no mount at
+		// all) where a new replica could be wanted.
+		for _, desired := range blk.Desired {
+			if desired > 0 {
+				lost = true
+				break
+			}
+		}
+	}
 	if bal.Dumper != nil {
 		bal.Dumper.Printf("%s refs=%d needed=%d unneeded=%d pulling=%v %v %v", blkid, blk.RefCount, blockState.needed, blockState.unneeded, blockState.pulling, blk.Desired, changes)
 	}
